@@ -208,6 +208,79 @@ def modifyDirLite (s : FS) (idx : Int) (a : ModArgs) : FS × Out :=
       (s, .unit .invalidIdx)
     else (⟨true, writeAt s.bytes off (modifyRecord r a)⟩, .unit .ok)
 
+/-! ### ptt.addBoardRecord — the only caller of SubstituteRecord (.BRD) -/
+
+def brdSz : Nat := Gen.RecFile.BOARD_HEADER_RAW_SZ
+def maxBoard : Nat := Gen.RecFile.MAX_BOARD
+
+/-- `cache.GetBid("")` on a board cache that agrees with `.BRD`: the record of a deleted board (empty
+brdname).  With several vacated slots the cache's bisection picks one of them; the model takes the first
+(the harness keeps at most one vacated slot, see the assumptions). -/
+def vacatedSlot (f : File) : Option Nat :=
+  (List.range (f.length / brdSz)).find? (fun k => (record f brdSz k).head? == some 0)
+
+/-- the index addBoardRecord hands to SubstituteRecord for board id `bid = k+1`: regenerated from the
+source (`int32(bid.ToBidInStore())` is the 0-based record index `k`; anything else is read as the bare id). -/
+def addBoardIndex (k : Nat) : Int :=
+  if Gen.RecFile.addBoardIndexIsStoreIndex then (k : Int) else (k : Int) + 1
+
+/-- addBoardRecord: reuse the vacated slot through SubstituteRecord, else append (unless the table is full).
+Returns the new board id. -/
+def addBoardRecord (s : FS) (img : List Nat) : FS × Out :=
+  match vacatedSlot s.bytes with
+  | some k =>
+    if k + 1 ≤ maxBoard then                                   -- bid.IsValid()
+      let r := substituteRecord s brdSz (addBoardIndex k) img
+      (r.1, match r.2 with | .unit .ok => .idx .ok (k + 1) | _ => .idx .err 0)
+    else if s.bytes.length / brdSz ≥ maxBoard then (s, .idx .err 0)
+    else appendRecord s brdSz img
+  | none =>
+    if s.bytes.length / brdSz ≥ maxBoard then (s, .idx .err 0)   -- ErrTooManyBoards
+    else appendRecord s brdSz img                                -- AddbrdTouchCache: bid = BNumber + 1
+
+/-! ### the .DIR.bottom count: cache.reloadCacheLoadBottom, cache.SetBottomTotal, ptt.LoadBottomArticles -/
+
+/-- the board-cache view of one board's pinned articles. -/
+structure Bottom where
+  file : FS          -- boards/X/<board>/.DIR.bottom
+  nBottom : Nat      -- Shm.NBottom[bid]
+  cold : Bool        -- Shm.Total[bid] == 0: no read of the board since the last ReloadBCache
+  deriving Repr, DecidableEq
+
+/-- `cmsys.GetNumRecords(bottom, FILE_HEADER_RAW_SZ)`. -/
+def bottomCount (f : FS) : Nat := if f.present then f.bytes.length / dirSz else 0
+
+/-- `n > limit` or `n >= limit`, as written in the source (regenerated). -/
+def overLimit (strict : Bool) (limit n : Nat) : Bool := if strict then n > limit else n ≥ limit
+
+/-- ReloadBCache → reloadCacheLoadBottom: the cached count is clamped, the file is not touched;
+every per-board total is zeroed (the board is cold). -/
+def reloadBottom (f : FS) : Bottom :=
+  let n := bottomCount f
+  ⟨f, if overLimit Gen.RecFile.reloadBottomStrict Gen.RecFile.reloadBottomLimit n then Gen.RecFile.reloadBottomLimit else n, true⟩
+
+/-- cache.SetBottomTotal with its guard as parameters: `n := uint8(GetNumRecords)`; over the limit the file
+is unlinked and the cached count set to 0. -/
+def setBottomTotalG (strict : Bool) (limit : Nat) (f : FS) : FS × Nat :=
+  let n := bottomCount f % 256
+  if overLimit strict limit n then (FS.absent, 0) else (f, n)
+
+/-- cache.SetBottomTotal as the source has it (guard regenerated). -/
+def setBottomTotal (f : FS) : FS × Nat :=
+  setBottomTotalG Gen.RecFile.setBottomStrict Gen.RecFile.setBottomLimit f
+
+/-- cache.GetBTotalWithRetry (reached from LoadGeneralArticles, recommend, edit, find-index) on a board
+whose .DIR is not empty: the first call after a reload runs SetBottomTotal, later ones do nothing. -/
+def coldRead (b : Bottom) : Bottom :=
+  if b.cold then
+    let r := setBottomTotal b.file
+    ⟨r.1, r.2, false⟩
+  else b
+
+/-- ptt.LoadBottomArticles: `GetRecords(bottom, 1, NBottom, asc)` unless the cached count is 0. -/
+def loadBottom (b : Bottom) : Out :=
+  if b.nBottom = 0 then .recs .ok [] else getRecords b.file 1 (b.nBottom : Int) false
+
 /-! ### operations and histories -/
 
 inductive Op where
